@@ -1773,8 +1773,23 @@ def translate(src):
     return "\n".join(out)
 
 
+def ndump(n):
+    """version-independent dump: class names and the non-empty fields (ast.dump differs between Pythons)"""
+    if isinstance(n, ast.AST):
+        parts = []
+        for f in n._fields:
+            v = getattr(n, f, None)
+            if f in ("ctx", "type_comment", "kind") or v is None or v == []:
+                continue
+            parts.append("%s=%s" % (f, ndump(v)))
+        return "%s(%s)" % (type(n).__name__, ",".join(parts))
+    if isinstance(n, list):
+        return "[" + ",".join(ndump(x) for x in n) + "]"
+    return repr(n)
+
+
 def norm_hash(node):
-    return hashlib.sha256(ast.dump(node, annotate_fields=False, include_attributes=False).encode()).hexdigest()[:16]
+    return hashlib.sha256(ndump(node).encode()).hexdigest()[:16]
 
 
 def pin_check(mod):
